@@ -1,0 +1,97 @@
+//go:build verif
+
+package fasthttp
+
+import (
+	"io/fs"
+	"time"
+)
+
+// Thin exports for the /verif correspondence harness (property C25, fs.go cache manager).
+
+// VerifFSHandler gives access to the fsHandler behind an FS request handler.
+type VerifFSHandler struct{ h *fsHandler }
+
+// VerifFSHandlerOf finds the fsHandler through the body stream the FS handler put into ctx.Response (nil if there is none).
+func VerifFSHandlerOf(ctx *RequestCtx) *VerifFSHandler {
+	switch r := ctx.Response.bodyStream.(type) {
+	case *bigFileReader:
+		return &VerifFSHandler{h: r.ff.h}
+	case *fsSmallFileReader:
+		return &VerifFSHandler{h: r.ff.h}
+	}
+	return nil
+}
+
+// VerifFsFile describes one fsFile as seen under the cache lock.
+type VerifFsFile struct {
+	ID      any // identity of the fsFile (pointer)
+	F       fs.File
+	Path    string
+	Kind    int
+	Readers int
+	Big     bool
+	Pooled  int // len(ff.bigFiles)
+}
+
+func verifFsFile(kind int, path string, ff *fsFile) VerifFsFile {
+	ff.bigFilesLock.Lock()
+	n := len(ff.bigFiles)
+	ff.bigFilesLock.Unlock()
+	return VerifFsFile{ID: ff, F: ff.f, Path: path, Kind: kind, Readers: ff.readersCount, Big: ff.isBig(), Pooled: n}
+}
+
+// Snapshot reads the in-memory cache manager under its lock. ok is false for the no-op manager (SkipCache).
+func (v *VerifFSHandler) Snapshot() (cache, pending []VerifFsFile, closed, ok bool) {
+	cm, isMem := v.h.cacheManager.(*inMemoryCacheManager)
+	if !isMem {
+		return nil, nil, false, false
+	}
+	cm.cacheLock.Lock()
+	defer cm.cacheLock.Unlock()
+	for kind, m := range []map[string]*fsFile{cm.cache, cm.cacheBrotli, cm.cacheGzip, cm.cacheZstd} {
+		for k, ff := range m {
+			cache = append(cache, verifFsFile(kind, k, ff))
+		}
+	}
+	for _, ff := range cm.pendingFiles {
+		pending = append(pending, verifFsFile(-1, "", ff))
+	}
+	return cache, pending, cm.closed, true
+}
+
+// CleanCache is one tick of handleCleanCache: cleanCache, then Release of what it collected.
+func (v *VerifFSHandler) CleanCache() {
+	if cm, ok := v.h.cacheManager.(*inMemoryCacheManager); ok {
+		filesToRelease := cm.cleanCache()
+		for _, ff := range filesToRelease {
+			ff.Release()
+		}
+	}
+}
+
+// Age moves the creation time of the cached file for (kind, path) back by d (logical time for the expiry test).
+func (v *VerifFSHandler) Age(kind int, path string, d time.Duration) {
+	if cm, ok := v.h.cacheManager.(*inMemoryCacheManager); ok {
+		cm.cacheLock.Lock()
+		if ff, ok := cm.getFsCache(CacheKind(kind))[path]; ok {
+			ff.t = ff.t.Add(-d)
+		}
+		cm.cacheLock.Unlock()
+	}
+}
+
+// CloseManager is what the AddCleanup finaliser of the handler calls.
+func (v *VerifFSHandler) CloseManager() { v.h.cacheManager.Close() }
+
+// VerifBodyFiles returns, for a response produced by the FS handler, the fsFile's main handle (ff.f) and the
+// reader's own handle (bigFileReader.f; nil for the small-file reader).
+func VerifBodyFiles(ctx *RequestCtx) (main, reader fs.File) {
+	switch r := ctx.Response.bodyStream.(type) {
+	case *bigFileReader:
+		return r.ff.f, r.f
+	case *fsSmallFileReader:
+		return r.ff.f, nil
+	}
+	return nil, nil
+}
